@@ -118,6 +118,7 @@ class Inv:
         self.viol = []
         self.st = collections.Counter()
         self.rd = R()
+        self.tree = self.geoms = None
 
     def chk(self, clause, cond, finding=None, **detail):
         self.st["inv:" + clause] += 1
@@ -377,6 +378,40 @@ class Inv:
             d2 = r.polygons.distance(sg.Point(p))
             self.chk("lookup-result-contains-point-within-tolerance", d2 <= self.tol + EPS, lookup=own,
                      point=[_f(p[0]), _f(p[1])], result=r.uid, distance=_f(d2), tolerance=self.tol, seed_element=e.uid)
+
+    # -- a point farther than the tolerance from EVERY element must not be attributed to one ----------
+    def outside(self, e, a, b):
+        """From boundary vertices of e, step 1.2 x tolerance along a DIAGONAL (so that an axis-aligned search box of
+        half-width tolerance would still touch e) until the true distance to every element is >= 1.05 x tolerance."""
+        if self.tol <= 0:
+            self.st["unjudged:outside-zero-tolerance"] += 1
+            return
+        if self.tree is None:  # own index: independent of the network's R-tree
+            self.geoms = [x.polygons for x in self.net.elements.values()]
+            self.tree = shapely.STRtree(self.geoms)
+        poly = e.polygons
+        ring = list(poly.geoms[a % len(poly.geoms)].exterior.coords)[:-1]
+        n, r = len(ring), 1.2 * self.tol / math.sqrt(2)
+        step = max(1, n // 64)
+        for k in range(min(n, 64)):
+            x, y = ring[(a // 3 + k * step) % n][:2]
+            for j in range(4):
+                sx, sy = ((1, 1), (-1, 1), (-1, -1), (1, -1))[(b + j) % 4]
+                q = sg.Point(x + sx * r, y + sy * r)
+                near = self.tree.query(q.buffer(2 * self.tol), predicate="intersects")
+                dmin = min((self.geoms[i].distance(q) for i in near), default=None)
+                if dmin is not None and 1.05 * self.tol <= dmin <= 1.3 * self.tol:
+                    p = (float(q.x), float(q.y))
+                    self.st["outside-point-probed"] += 1
+                    for name in ("elementAt", "roadAt", "laneAt", "laneSectionAt", "laneGroupAt", "intersectionAt",
+                                 "sidewalkAt", "shoulderAt"):
+                        res = getattr(self.net, name)(p)
+                        d = None if res is None else res.polygons.distance(q)
+                        self.chk("lookup-result-contains-point-within-tolerance", res is None or d <= self.tol + EPS,
+                                 lookup=name, point=[_f(p[0]), _f(p[1])], result=_uid(res), distance=_f(d),
+                                 tolerance=self.tol, nearest_element_distance=_f(dmin), seed_element=e.uid)
+                    return
+        self.st["unjudged:outside-no-diagonal-point-found"] += 1
 
     # -- traffic direction on a lane's centre line ---------------------------
     def direction(self, lane, a):
